@@ -1468,6 +1468,8 @@ class StorageBackendBase(StorageBackend, ABC):
         )
 
     def is_all_memoized(self, fns: Iterable[FunctionReferenceWithArguments]) -> bool:
+        # The calls are gone through twice below, and an iterator can be consumed only once
+        fns = list(fns)
         if self._memory_cache:
             if self._memory_cache.is_all_memoized(fns):
                 return True
